@@ -355,20 +355,6 @@ fn base_features() -> Vec<(&'static str, Vec<Item>)> {
         ),
         ("let-group", vec![Item::Let { binds: vec![("f".into(), int(9)), ("g".into(), s("l"))], body: vec![def("l1", vec![a_of(vec![int(1)])], None), def("l2", vec![a_of(vec![int(2)])], None)], braces: true }]),
         (
-            // a let list consumed out of order, and the same nested
-            "let-crossing",
-            vec![
-                c("HA", vec![], vec![], Some(vec![f(Ty::Int, "alpha", int(0))])),
-                c("HB", vec![], vec![], Some(vec![f(Ty::Str, "beta", s("b"))])),
-                Item::Let { binds: vec![("alpha".into(), int(1)), ("beta".into(), s("two"))], body: vec![def("lc1", vec![CRef::plain("HB")], None), def("lc2", vec![CRef::plain("HA")], None)], braces: true },
-                Item::Let {
-                    binds: vec![("alpha".into(), int(1))],
-                    body: vec![Item::Let { binds: vec![("beta".into(), s("two"))], body: vec![def("lc3", vec![CRef::plain("HB")], None)], braces: false }, def("lc4", vec![CRef::plain("HA")], None)],
-                    braces: true,
-                },
-            ],
-        ),
-        (
             "class-values",
             vec![def(
                 "cv",
